@@ -1,8 +1,9 @@
 import VlsModel.Drv.Common
-/- Line-protocol models serving property C15 (none yet). -/
+import VlsModel.Drv.Chain
+/- Line-protocol models serving property C15. -/
 namespace VlsModel.Drv.C15
 open VlsModel.Drv
 
-def models : List (String × Model) := []
+def models : List (String × Model) := [ ("prune", Chain.pruneModel) ]
 
 end VlsModel.Drv.C15
